@@ -172,13 +172,42 @@ func isSetTypedAddr(fa *ssa.FieldAddr) bool {
 func checkRequiredAppends(p *core.Program, r *core.Report, m *builderModel) {
 	name := core.FuncName(m.fn)
 	sawCustom, sawClass := false, false
+	// the values that end up in recv.requiredSets: stored values and everything they are accumulated from
+	inChain := map[ssa.Value]bool{}
+	var walk func(v ssa.Value, d int)
+	walk = func(v ssa.Value, d int) {
+		v = core.StripType(v)
+		if d > 12 || inChain[v] {
+			return
+		}
+		inChain[v] = true
+		switch x := v.(type) {
+		case *ssa.Phi:
+			for _, e := range x.Edges {
+				walk(e, d+1)
+			}
+		case *ssa.Call:
+			if core.IsBuiltin(x, "append") {
+				walk(x.Call.Args[0], d+1)
+			}
+		}
+	}
+	for _, ref := range core.Referrers(m.recv) {
+		if fa, ok := ref.(*ssa.FieldAddr); ok && core.FieldName(fa) == "requiredSets" {
+			for _, rr := range core.Referrers(fa) {
+				if st, ok := rr.(*ssa.Store); ok && st.Addr == ssa.Value(fa) {
+					walk(st.Val, 0)
+				}
+			}
+		}
+	}
 	for _, c := range core.Calls(m.fn) {
 		cv, ok := c.(*ssa.Call)
 		if !ok || !core.IsBuiltin(cv, "append") {
 			continue
 		}
-		// append(load recv.requiredSets, lit{*newReqSet(x, name)})
-		if !recvFieldLoad(cv.Call.Args[0], m.recv, "requiredSets") {
+		// append(acc, lit{*newReqSet(x, name)}) where acc is the required-sets field or a local accumulator stored into it
+		if !recvFieldLoad(cv.Call.Args[0], m.recv, "requiredSets") && !inChain[ssa.Value(cv)] {
 			continue
 		}
 		var src ssa.Value
@@ -200,8 +229,8 @@ func checkRequiredAppends(p *core.Program, r *core.Report, m *builderModel) {
 			}
 		}
 		pos := p.InstrPos(cv)
-		// result stored back
-		stored := false
+		// result stored back (directly, or as part of the accumulator chain that is)
+		stored := inChain[ssa.Value(cv)]
 		for _, ref := range core.Referrers(cv) {
 			if st, ok := ref.(*ssa.Store); ok {
 				if fa, ok := st.Addr.(*ssa.FieldAddr); ok && fa.X == ssa.Value(m.recv) && core.FieldName(fa) == "requiredSets" {
